@@ -356,6 +356,10 @@ func (c *bctx) ufApply(t *Term) interface{} {
 		kl, fixed := knownLen(t)
 		if fixed {
 			capn = int(kl)
+		} else if m := c.maxLen(t); m > capn {
+			// an encoding of material that is longer than the bound (a 43-byte hash inside a state
+			// string, ...): room for what the length axioms of the function require
+			capn = m
 		} else if strings.HasPrefix(t.name, "b64dec_") && len(t.args) == 1 {
 			// decoded bytes of an input of known length: room for 3 bytes per 4 characters
 			if n, ok := knownLen(t.args[0]); ok && int(n)*3/4+3 > capn {
@@ -754,6 +758,52 @@ func (c *bctx) inRe(s *bvec, re *Term) *Term {
 
 // translateBounded turns a list of assertions into bounded form; declare lists
 // terms (nd variables, tag conditions) that must exist in the model.
+// maxLen: an upper bound of the byte length a string term can take in the bounded encoding
+// (variables up to L, constants and fixed-length ideal values exactly, encodings by their length
+// relation); 0 when nothing is known.
+func (c *bctx) maxLen(t *Term) int {
+	if t.sort != SStr {
+		return 0
+	}
+	if s, ok := t.strVal(); ok {
+		return len(s)
+	}
+	if n, ok := knownLen(t); ok {
+		return int(n)
+	}
+	switch {
+	case t.op == "var":
+		return c.L
+	case t.op == "str.++":
+		n := 0
+		for _, a := range t.args {
+			n += c.maxLen(a)
+		}
+		return n
+	case strings.HasPrefix(t.op, "uf:"):
+		arg := func(i int) int {
+			if i < len(t.args) {
+				return c.maxLen(t.args[i])
+			}
+			return 0
+		}
+		switch {
+		case strings.HasPrefix(t.name, "b64enc_"):
+			return 4*((arg(0)+2)/3) + 4
+		case t.name == "hex_enc":
+			return 2 * arg(0)
+		case t.name == "Enc":
+			return arg(2) + 16
+		case t.name == "CFBenc":
+			return arg(2)
+		case strings.HasPrefix(t.name, "b64dec_"):
+			return arg(0)*3/4 + 3
+		}
+		return 2 * c.L
+	}
+	return 2 * c.L
+}
+
 func translateBounded(L int, asserts []*Term, declare []*Term) (out []*Term, ctx *bctx, err error) {
 	ctx = newBctx(L, "b.")
 	defer func() {
